@@ -1,9 +1,11 @@
 package main
 
 import (
+	"crypto/tls"
 	"encoding/json"
 	"fmt"
 	"io"
+	"net"
 	"net/http"
 	"path/filepath"
 	"sort"
@@ -187,4 +189,28 @@ func sortedKeys[V any](m map[string]V) []string {
 	}
 	sort.Strings(ks)
 	return ks
+}
+
+// tlsStartBound: how long a TLS listener may take to present its first certificate after start-up.
+const tlsStartBound = 30 * time.Second
+
+// waitTLSServing returns once a TLS handshake with each of addrs has been presented a certificate. A TLS listener of
+// fabio accepts connections before the first, asynchronous load of its certificate source is installed (cert.TLSConfig
+// starts the watcher and returns, every listener has a store of its own); until then every handshake fails with
+// "internal error". That window belongs to start-up, not to what the monitors behind this rig observe (C11's wire part
+// observes it itself), so they wait it out: the handshake carries no request and is closed at once.
+func waitTLSServing(sni string, addrs ...string) error {
+	for _, a := range addrs {
+		for t0 := time.Now(); ; time.Sleep(25 * time.Millisecond) {
+			conn, err := tls.DialWithDialer(&net.Dialer{Timeout: 5 * time.Second}, "tcp", a, &tls.Config{ServerName: sni, InsecureSkipVerify: true, NextProtos: []string{"h2", "http/1.1"}})
+			if err == nil {
+				conn.Close()
+				break
+			}
+			if time.Since(t0) > tlsStartBound {
+				return fmt.Errorf("watchdog: TLS listener %s presented no certificate within %s of start-up: %v", a, tlsStartBound, err)
+			}
+		}
+	}
+	return nil
 }
